@@ -19,7 +19,15 @@ from fractions import Fraction
 from .. import common as cm
 
 PROP = 'C18'
-THEOREMS = []
+THEOREMS = [
+    'C18.E_periodic', 'C18.E_interpolates', 'C18.E_interpolates_edge', 'C18.hgrid_of_uniform', 'C18.wrap_loop_spec',
+    'C18.delta_interpolates', 'C18.delta_periodic_offlattice',
+    'C18.a12_pos_inverse', 'C18.a12_pos_inverse_many', 'C18.pos_xy_inverse', 'C18.pos_xy_inverse_many',
+    'C18.planeNormal_perp', 'C18.model_roundtrip',
+    'C18.total_is_sum', 'C18.elastic_symmetric_quadratic', 'C18.elastic_polarization', 'C18.elastic_scaling',
+    'C18.density_shift_invariant', 'C18.elastic_shift_invariant',
+    'C18.solve_ends_fixed', 'C18.solve_interior', 'C18.recompose_decompose',
+]
 PARTIAL = {}
 RULE = ''
 ASSUMPTIONS = []
